@@ -36,6 +36,18 @@ def san(s):
     return re.sub(r'_+', '_', re.sub(r'[^A-Za-z0-9]', '_', s)).strip('_')
 
 
+def struct_tag(cxx_name, prefix='S_'):
+    """C struct tag for a C++ record spelling; injective on the pieces that distinguish wrapper instantiations"""
+    n = norm_name(cxx_name)
+    n = n.replace('*', '_p').replace('&', '_r').replace('[', '_a').replace(']', '').replace('(', '_f').replace(')', '')
+    n = n.replace('<', '_L').replace('>', '_J').replace(',', '_')
+    cn = prefix + san(n)
+    if len(cn) > 120:
+        import hashlib
+        cn = cn[:100] + '_' + hashlib.sha1(cn.encode()).hexdigest()[:8]
+    return cn
+
+
 class Emitter:
     def __init__(self, tu, leaf_pred=None, std_models=None, opts=None):
         """leaf_pred(fn_node, record_display_name) -> truthy leaf key if the function is a contract leaf
@@ -97,7 +109,7 @@ class Emitter:
                     return ('c', 'struct ' + self.use_record(rec, name), quals)
             if 'decltype' not in name and re.match(r'^(rlbox::)?(tainted|tainted_volatile|tainted_opaque|tainted_base_impl|sandbox_callback|app_pointer|rlbox_sandbox)<', name):
                 # class template specialisation that the instantiation only uses through pointers/references
-                cn = 'S_' + san(norm_name(name))
+                cn = struct_tag(name)
                 if cn not in self.struct_defs:
                     self.struct_defs[cn] = 'struct %s; /* incomplete: %s never instantiated here */' % (cn, name)
                     self.used_records[cn] = ('incomplete', name)
@@ -141,7 +153,7 @@ class Emitter:
             sp = T.parse(self._split_targs(name)[0])
             elem = self.resolve(sp)
             n = int(m.group(2))
-            cn = 'A_' + san(nn)
+            cn = struct_tag(name, 'A_')
             if cn not in self.struct_defs:
                 self.struct_defs[cn] = None
                 self.struct_defs[cn] = 'struct %s { %s; };' % (cn, self.cdecl(('a', elem, n), '_M_elems'))
@@ -152,7 +164,7 @@ class Emitter:
         m = re.match(r'^pair<', nn)
         if m:
             a, b = self._split_targs(name)
-            cn = 'P_' + san(nn)
+            cn = struct_tag(name, 'P_')
             if cn not in self.struct_defs:
                 self.struct_defs[cn] = None
                 ta = self.resolve(T.parse(a))
@@ -203,9 +215,7 @@ class Emitter:
     def use_record(self, rec, spelled=None):
         rid = rec['id']
         disp = self.tu.rec_name.get(rid, rec.get('name', rid))
-        cn = 'S_' + san(norm_name(spelled or disp))
-        if len(cn) > 120:
-            cn = cn[:100] + '_' + str(abs(hash(cn)) % 100000)
+        cn = struct_tag(spelled or disp)
         if cn in self.struct_defs:
             return cn
         self.struct_defs[cn] = None     # in progress (pointers to self are fine)
@@ -305,17 +315,35 @@ class Emitter:
             raise ExtractError('type parse: %s' % e)
 
     # ------------------------------------------------------------------ functions
+    OPNAMES = {'+': 'plus', '-': 'minus', '*': 'star', '/': 'div', '%': 'mod', '^': 'xor', '&': 'amp', '|': 'pipe',
+               '<<': 'shl', '>>': 'shr', '==': 'eq', '!=': 'ne', '<': 'lt', '<=': 'le', '>': 'gt', '>=': 'ge',
+               '[]': 'index', '()': 'call', '=': 'assign', '++': 'inc', '--': 'dec', '!': 'not', '~': 'compl',
+               '&&': 'land', '||': 'lor', '->': 'arrow', '+=': 'pluseq', '-=': 'minuseq', '*=': 'stareq', '/=': 'diveq',
+               '%=': 'modeq', '^=': 'xoreq', '&=': 'ampeq', '|=': 'pipeeq', '<<=': 'shleq', '>>=': 'shreq'}
+
     def fname(self, fn):
+        """short, unique, stable C name: <c++ name>_<hash of the mangled name>"""
         fid = fn['id']
         if fid in self.cname:
             return self.cname[fid]
-        base = fn.get('mangledName')
-        if not base:
-            rec = self.tu.parent_rec.get(fid)
-            base = (san(self.tu.rec_name.get(rec['id'], 'rec')) + '_' if rec else '') + fn.get('name', 'fn') + '_' + fid[-6:]
-        n = san(base)
+        import hashlib
+        nm = fn.get('name', 'fn')
+        if nm.startswith('operator') and not re.match(r'^operator[A-Za-z_ ]', nm[8:9] and nm or 'operatorx'):
+            sym = nm[8:].strip()
+            nm = 'operator_' + self.OPNAMES.get(sym, san(sym) or 'op')
+        elif nm.startswith('operator '):
+            nm = 'operator_conv'
+        rec = self.tu.parent_rec.get(fid)
+        base = fn.get('mangledName') or ((self.tu.rec_name.get(rec['id'], 'rec') if rec else '') + '::' + nm + '@' + fid)
+        h = hashlib.sha1(base.encode()).hexdigest()[:8]
+        recn = ''
+        if rec is not None:
+            recn = san(re.sub(r'<.*$', '', self.tu.rec_name.get(rec['id'], '')).split('::')[-1])[:24] + '_'
+        n = '%s%s_%s' % (recn, san(nm)[:40], h)
         if fn['kind'] == 'CXXConstructorDecl':
             n = 'ctor_' + n
+        if fn['kind'] == 'CXXDestructorDecl':
+            n = 'dtor_' + n
         self.cname[fid] = n
         return n
 
@@ -434,6 +462,7 @@ class Emitter:
             names.append('this_')
         for i, p in enumerate(self.params(fn)):
             nm = p.get('name') or ('_unnamed%d' % i)
+            p['name'] = nm
             self.tu.decls[p['id']] = p
             ps.append(self.cdecl(self.ctype_of(qt(p)), nm))
             names.append(nm)
@@ -468,7 +497,7 @@ class Emitter:
                         nm = ci['anyInit']['name']
                         inited.add(nm)
                         ii = inner(ci)
-                        pre += '  ' + self.init_field('this_->' + nm, qt(ci['anyInit']), ii[0] if ii else None) + '\n'
+                        pre += '  ' + self.init_field(self.field_lvalue('this_', nm, qt(ci['anyInit'])), qt(ci['anyInit']), ii[0] if ii else None) + '\n'
                     elif 'baseInit' in ci:
                         ii = inner(ci)
                         bt = ci['baseInit'].get('desugaredQualType') or ci['baseInit']['qualType']
@@ -482,7 +511,7 @@ class Emitter:
                 if nm not in inited:
                     fi = [c for c in inner(f)]
                     if fi and f.get('hasInClassInitializer'):
-                        pre += '  ' + self.init_field('this_->' + nm, qt(f), fi[-1]) + '\n'
+                        pre += '  ' + self.init_field(self.field_lvalue('this_', nm, qt(f)), qt(f), fi[-1]) + '\n'
             post = '  return self_;\n'
             self.lowerings['L-ctor'] += 1
         text = self.S(body, 1, fn)
@@ -493,6 +522,15 @@ class Emitter:
         self.sig_text[fn['id']] = sig
         self.fn_text[fn['id']] = out
         return sig, out
+
+    def field_lvalue(self, obj, nm, ftype):
+        """lvalue of a member being initialised in a constructor; const members are written through a
+        non-const view (initialisation, not assignment)"""
+        t = self.ctype_of(ftype)
+        if t[0] in ('c', 'p') and 'const' in t[2]:
+            nt = (t[0], t[1], frozenset(q for q in t[2] if q != 'const'))
+            return '(*(%s)&%s->%s)' % (self.cdecl(('p', nt, frozenset())), obj, nm)
+        return '%s->%s' % (obj, nm)
 
     def init_field(self, lhs, ftype, e):
         if e is None:
